@@ -59,6 +59,7 @@ class Stats:
         self.parts = {}  # part name -> dict of counters
         self.caps_hit = []
         self.extra = {}  # free-form, merged by update / sum for ints
+        self.label_counts = {}
 
     def part(self, name):
         return self.parts.setdefault(name, {"evaluations": 0})
@@ -68,6 +69,7 @@ class Stats:
         input / call site (known-findings are matched on it, never on the property alone)."""
         self.n_violations += 1
         label = label or msg.split(":")[0][:60]
+        self.label_counts[label] = self.label_counts.get(label, 0) + 1
         n_same = sum(1 for v in self.violations if v["label"] == label)
         if len(self.violations) < self.MAX_VIOL and n_same < 6:
             self.violations.append(
@@ -92,8 +94,11 @@ class Stats:
         self.traces += o.traces
         self.n_violations += o.n_violations
         for v in o.violations:
-            if len(self.violations) < 4 * self.MAX_VIOL:
+            n_same = sum(1 for x in self.violations if x["label"] == v["label"])
+            if n_same < 6 and len(self.violations) < 600:
                 self.violations.append(v)
+        for k, n in o.label_counts.items():
+            self.label_counts[k] = self.label_counts.get(k, 0) + n
         for s in o.samples:
             if len(self.samples) < 12:
                 self.samples.append(s)
@@ -288,6 +293,8 @@ def write_evidence(driver, tier, seed, st: Stats, wall, n_viol, n_known, extra_c
         if k in ("cpu_s", "harness_errors"):
             continue
         cov[k] = len(v) if isinstance(v, set) else _jsonable(v)
+    if st.label_counts:
+        cov["violation_labels"] = dict(sorted(st.label_counts.items()))
     if extra_cov:
         cov.update(_jsonable(extra_cov))
     ev = {
@@ -394,7 +401,7 @@ def run_check(prop_id, tier="quick", seed=0, jobs=None):
     reported.sort(key=lambda v: len(json.dumps(v["case"], default=repr)))
     picked, labels = [], set()
     for v in reported:  # shortest case of each label first
-        if v["label"] not in labels and len(picked) < 5:
+        if v["label"] not in labels and len(picked) < 8:
             labels.add(v["label"])
             picked.append(v)
     for v in picked:
